@@ -302,6 +302,8 @@ var glueTmpl = template.Must(template.New("glue").Parse(`// Code generated by ve
 package main
 
 import (
+	"fmt"
+
 	"{{.Mod}}/harness"
 {{- if .HasLexer}}
 	lexer_{{.V}} "{{.Pkg}}/lexer"
@@ -385,23 +387,33 @@ func (glue_{{.V}}) MutateToken(x interface{}) {
 	}
 }
 
-func (glue_{{.V}}) TokMethods(x interface{}) {
+func (glue_{{.V}}) TokMethods(x interface{}) (out string) {
 	t, ok := x.(*token_{{.V}}.Token)
 	if !ok || t == nil {
-		return
+		return ""
 	}
-	defer func() { recover() }() // some helpers slice the literal and panic on short ones
-	_ = t.IDValue()
-	_, _ = t.Int64Value()
-	_, _ = t.Int32Value()
-	_, _ = t.Float64Value()
-	_, _ = t.UTF8Rune()
-	_ = t.Equals(t)
-	_ = t.Pos.String()
-	_ = token_{{.V}}.TokMap.TokenString(t)
-	_ = token_{{.V}}.TokMap.StringType(t.Type)
-	_ = t.StringValue()
-	_ = t.CharLiteralValue()
+	// some helpers slice the literal and panic on short ones: every call on its own
+	try := func(f func() string) {
+		defer func() {
+			if r := recover(); r != nil {
+				out += "panic;"
+			}
+		}()
+		out += f() + ";"
+	}
+	try(func() string { return t.IDValue() })
+	try(func() string { v, err := t.Int64Value(); return fmt.Sprint(v, err) })
+	try(func() string { v, err := t.Int32Value(); return fmt.Sprint(v, err) })
+	try(func() string { v, err := t.Float64Value(); return fmt.Sprint(v, err) })
+	try(func() string { v, n := t.UTF8Rune(); return fmt.Sprint(v, n) })
+	try(func() string { return fmt.Sprint(t.Equals(t)) })
+	try(func() string { return t.Pos.String() })
+	try(func() string { return token_{{.V}}.TokMap.TokenString(t) })
+	try(func() string { return token_{{.V}}.TokMap.StringType(t.Type) })
+	try(func() string { return t.StringValue() })
+	try(func() string { return fmt.Sprint(t.CharLiteralValue()) })
+	try(func() string { return t.String() })
+	return out
 }
 
 func (glue_{{.V}}) TokInfo(x interface{}) (harness.TokInfo, bool) {
